@@ -281,6 +281,10 @@ def make_base(spec, mixins=()):
                 # a bound given as {"per_member": [...]} differs per ensemble member
                 lo_m = lo["per_member"][m] if isinstance(lo, dict) and "per_member" in lo else lo
                 hi_m = hi["per_member"][m] if isinstance(hi, dict) and "per_member" in hi else hi
+                if isinstance(lo_m, dict) and "grid" in lo_m:
+                    lo_m = {"times": self._spec["times"], "values": lo_m["grid"]}
+                if isinstance(hi_m, dict) and "grid" in hi_m:
+                    hi_m = {"times": self._spec["times"], "values": hi_m["grid"]}
                 cons.append((ast_casadi(e, self._path_sym()), conv_bound(lo_m, Timeseries), conv_bound(hi_m, Timeseries)))
             return cons
 
